@@ -34,9 +34,21 @@ func filler(n int, seed uint32) []byte {
 	return b
 }
 
+var dirCounter int
+
 func tempDir(t interface{ Fatalf(string, ...interface{}) }) string {
 	base := os.Getenv("VERIF_SCRATCH")
-	d, err := ioutil.TempDir(base, "store")
+	// directory names rotate through characters that mean something to path helpers (glob patterns,
+	// escapes, spaces): the storage path is an opaque name
+	dirNames := []string{"store", "store [1] ", "st[ore ", "back\\slash ", "a b ", "{x,y} ", "ünï ", "q? "}
+	name := dirNames[0]
+	if rt, ok := t.(*rapid.T); ok {
+		name = rapid.SampledFrom(dirNames).Draw(rt, "storage-dir-name") // part of the case: replays use the same name
+	} else {
+		dirCounter++
+		name = dirNames[dirCounter%len(dirNames)]
+	}
+	d, err := ioutil.TempDir(base, name)
 	if err != nil {
 		t.Fatalf("tempdir: %v", err)
 	}
